@@ -590,12 +590,72 @@ pub fn gen_topo(rng: &mut StdRng) -> Topo {
     Topo { nodes, links, loss: 0.0, seed: rng.gen(), fault, family: name.to_string(), log_announce }
 }
 
+/// Many grandmasters, one after the other, on one segment: each new one must be found by the clock
+/// that has been there all along, however many it has seen come and go before.
+fn succession(rep: &mut Report, seed: u64) {
+    let replay = json!({"succession_seed": seed});
+    let mut rng = StdRng::seed_from_u64(seed);
+    let n_masters = rng.gen_range(9..=12usize);
+    let mut sim = Sim::new(seed);
+    sim.keep_log = true;
+    let mut ob = Build::new(0x70);
+    ob.priority1 = 250;
+    ob.seed = seed;
+    let Ok(o) = ob.build() else { return };
+    let oi = sim.add_node(o.node, rng.gen_range(0..I_NS));
+    let mut ends = vec![(oi, 0)];
+    let mut ms = vec![];
+    for k in 0..n_masters {
+        let mut b = Build::new(0x10 + k as u8);
+        b.priority1 = [100u8, 90, 110, 60][k % 4];
+        b.seed = seed.wrapping_add(1 + k as u64);
+        let Ok(m) = b.build() else { return };
+        let mi = sim.add_node(m.node, rng.gen_range(0..I_NS));
+        sim.nodes[mi].muted = true;
+        ends.push((mi, 0));
+        ms.push(mi);
+    }
+    sim.add_link(ends, rng.gen_range(1_000..300_000), rng.gen_range(0..20_000), 0.0);
+    let id_of = |k: usize| clock_id(0x10 + k as u8).0;
+    for (k, &mi) in ms.iter().enumerate() {
+        sim.nodes[mi].muted = false;
+        let t0 = sim.now;
+        sim.run_until(t0 + 20 * I_NS);
+        if sim.panic.is_some() {
+            return;
+        }
+        let pd = sim.nodes[oi].node.inst().parent_ds();
+        let so = sim.nodes[oi].node.port_state(0);
+        let sm = sim.nodes[mi].node.port_state(0);
+        rep.ev("succession_step_checked");
+        if so != PortState::Slave || pd.grandmaster_identity.0 != id_of(k) || sm != PortState::Master {
+            rep.violation(
+                "C01|succession|new-grandmaster-not-found",
+                &format!("grandmaster number {} on the segment announced for 20 intervals: the resident clock's port is {} with grandmaster {:?} (the new one is {:?}, its port is {})", k + 1, state_name(so), pd.grandmaster_identity.0, id_of(k), state_name(sm)),
+                replay.clone(),
+            );
+            return;
+        }
+        sim.nodes[mi].muted = true;
+        let t1 = sim.now;
+        sim.run_until(t1 + 14 * I_NS);
+        let so = sim.nodes[oi].node.port_state(0);
+        if so != PortState::Master {
+            rep.violation("C01|succession|no-takeover", &format!("grandmaster number {} disappeared 14 intervals ago: the resident clock's port is {}", k + 1, state_name(so)), replay.clone());
+            return;
+        }
+    }
+    rep.ev("succession_of_more_than_eight_grandmasters");
+}
+
 pub fn run(rep: &mut Report, tier: &str, seed: u64, shard: (u32, u32), replay: Option<&str>) {
     rep.rule = "seeded topologies of real instances (chains, shared segments, rings, two ports of one instance on one segment, star and mixed; <= 6 nodes) with random rankings incl. clockClass < 128 leaves and slave-only nodes, per-link delay/jitter and BMCA phases (no loss: the property speaks of undisturbed announce traffic); each is run to the settle bound, checked structurally, observed for 20 intervals for flapping, then one fault (cut/restore link, silence node, quality change) is applied and everything is checked again; distinct = distinct orders of processed events (hash); non-trivial = a structure check ran".into();
-    rep.require(&["structure_checked_initial", "flap_window_initial", "fault_applied", "fault_slave_only_node_made_master_capable", "structure_checked_after-fault", "sim_events"]);
+    rep.require(&["structure_checked_initial", "flap_window_initial", "fault_applied", "fault_slave_only_node_made_master_capable", "structure_checked_after-fault", "sim_events", "succession_of_more_than_eight_grandmasters"]);
     if let Some(path) = replay {
         let v: serde_json::Value = serde_json::from_str(&std::fs::read_to_string(path).unwrap()).unwrap();
-        if let Ok(c) = serde_json::from_value::<Topo>(v["case"].clone()) {
+        if let Some(sd) = v["case"]["succession_seed"].as_u64() {
+            succession(rep, sd);
+        } else if let Ok(c) = serde_json::from_value::<Topo>(v["case"].clone()) {
             run_case(rep, &c, true);
         }
         println!("replay: {} finding(s)", rep.findings.len());
@@ -616,5 +676,8 @@ pub fn run(rep: &mut Report, tier: &str, seed: u64, shard: (u32, u32), replay: O
         }
         run_case(rep, &t, false);
         rep.evaluations += 1;
+        if i % 50 == 10 {
+            succession(rep, rng.gen());
+        }
     }
 }
